@@ -1,20 +1,102 @@
-"""Per-property registry: Lean modules, theorem (obligation) names, harnesses, evidence text."""
+"""Per-property registry: Lean modules, theorem (obligation) names, harnesses, evidence and manifest text."""
 
 KERNEL = "Lean 4.33.0 kernel (lake build; leanchecker re-check in the thorough tier)"
-TIE = "correspondence harness (Go, built from /repo's working tree with -tags verif -overlay) + compiled Lean driver tvdrv + line diff"
+TIE = ("correspondence harness (Go, built from /repo's working tree with -tags verif -overlay) + compiled Lean driver tvdrv + "
+       "line diff; generator coverage is reported in the evidence, not assumed")
+PRIMS = ("reference primitives TinkVerif/Prim/* (SHA-1/2, Keccak, AES, GHASH/GCM, ChaCha20-Poly1305, POLYVAL, EC/RSA/Ed25519, "
+         "FIPS 204, FIPS 205) are executable Lean written from the standards, validated by KATs (lake build fails if one fails) "
+         "and by agreement with Go — not proved")
+
+
+def T(ns, names):
+    return [ns + "." + t for t in names.split()]
+
 
 PROPS = {
+    "C04": {
+        "lean": ["TinkVerif.Props.C04"],
+        "theorems": ["TinkVerif.Cmac.compute_eq_spec", "TinkVerif.Cmac.cbcLoop_eq", "TinkVerif.Mac.verify_iff",
+                     "TinkVerif.Mac.compute_layout", "TinkVerif.Mac.legacy_suffix", "TinkVerif.Mac.verify_wrong_length",
+                     "TinkVerif.Mac.hmac_param_guard", "TinkVerif.Mac.cmac_param_guard",
+                     "TinkVerif.outputPrefix_inj", "TinkVerif.outputPrefix_tink_ne_crunchy"],
+        "harness": [{"name": "c04"}],
+        "rule": "HMAC (5 hashes × key sizes incl. rejected ones × tag sizes 10..digest and rejected ones) and AES-CMAC (key 16/24/32 and "
+                "rejected, tag 10..16 and rejected) through mac.New(handle), mac/subtle and the internal CMAC routine; all four variants; "
+                "ids incl. 0 and 2^32-1; message lengths concentrated on block boundaries; per tag 6 tag mutations (flip/truncate/extend/"
+                "prefix/random) and 2 message mutations; every line compares Go with the Lean model instantiated with the reference "
+                "HMAC/AES; non-trivial = every op line, distinct by line hash",
+        "trusted_base": [KERNEL, TIE, PRIMS],
+        "assumptions": ["collision resistance of the tag function is cryptographic: 'modified messages are rejected' is covered by the "
+                        "mutation stream plus the exact theorem verify ↔ tag = compute"],
+        "manifest": {
+            "text": "Theorems (all lengths, every block function E, every raw tag function): the Go CMAC loop equals RFC 4493 AES-CMAC; "
+                    "VerifyMAC accepts (tag,msg) iff tag = ComputeMAC(msg); tag layout prefix ‖ truncated tag over msg(‖00 for LEGACY); "
+                    "wrong-length tags rejected; parameter guards. Tie: byte equality of Go's tags with the model instantiated with the "
+                    "independent HMAC/AES reference, and agreement of verify decisions on mutation streams.",
+            "design_ref": "DESIGN.md §5.4",
+            "note": "Trusted: Lean kernel; reference SHA/AES (KAT + agreement with Go); hand model tied by differential execution.",
+            "technique": "Lean 4 proof (CMAC impl = RFC spec, verify iff) + Go/Lean byte-equality correspondence with mutation stream",
+        },
+    },
+    "C07": {
+        "lean": ["TinkVerif.Props.C07"],
+        "theorems": T("TinkVerif.Stream",
+                      "writer_chunking_independent writer_partition_irrelevant segments_cover_plaintext segmentNonce_injective "
+                      "segmentNonce_limit sink_fault_surfaces flush_fails_after_fault failed_flush_keeps_segment read_honest "
+                      "reader_chunking_independent stream_roundtrip read_sound manipulation_detected source_fault_never_eof "
+                      "idealCipher_sound"),
+        "harness": [{"name": "c07a"}],
+        "rule": "real noncebased.Writer/Reader driven with a toy segment cipher mirrored in Lean: segment sizes 1..40, first-segment "
+                "offsets, nonce/prefix sizes incl. invalid, plaintext lengths on segment boundaries, random write partitions with "
+                "zero-length writes, sink failing from a chosen call, five source chunkers incl. (0,nil) and data+EOF, honest and "
+                "manipulated streams (truncate/drop/dup/flip/append/swap/empty), failing sources, random read capacities incl. 0; every "
+                "call's (n, error class, bytes) is diffed; the spec function encodeStream is compared with the real writer's output; "
+                "non-trivial = every op except constructor lines, distinct by line hash",
+        "trusted_base": [KERNEL, TIE, "io.ReadFull semantics (stdlib) are modelled: only the byte stream and the fault position matter"],
+        "assumptions": ["H_seg (ideal segment AEAD) is an explicit hypothesis of manipulation_detected; non-vacuity shown by idealCipher_sound",
+                        "segment-cipher round trip and expansion (Honest) are hypotheses of the reader theorem",
+                        "plaintexts up to 2^32-2 bytes in the writer theorem (the format allows 2^32-1 segments)"],
+        "manifest": {
+            "text": "Theorems over the Writer/Reader state machines, generic in the segment cipher, for every segment size/offset, plaintext, "
+                    "write partition and read-capacity sequence: writer output = documented header-less stream (T1); reader returns exactly "
+                    "the plaintext then EOF, never an error, EOF never early (T2); under H_seg every byte string other than the honest "
+                    "stream ends in an error and bytes before it are a plaintext prefix (T3); a persistently failing sink/source always "
+                    "surfaces as an error and never as EOF (T4); nonce injectivity. Tie: op-sequence differential on the real "
+                    "noncebased package with a toy cipher, incl. manipulations and I/O faults.",
+            "design_ref": "DESIGN.md §5.7",
+            "note": "Trusted: Lean kernel; hand model tied by differential execution; AES-GCM-HKDF/AES-CTR-HMAC key derivation covered by harness c07b when built.",
+            "technique": "Lean 4 invariant/refinement proofs over the stream state machines + Go/Lean op-sequence correspondence",
+        },
+    },
+    "C08": {
+        "lean": ["TinkVerif.Props.C08"],
+        "theorems": ["TinkVerif.Kwp.stepB_stepF", "TinkVerif.Kwp.Winv_W", "TinkVerif.Kwp.wrappingSize_formula",
+                     "TinkVerif.Kwp.wrappingSize_mult8", "TinkVerif.Siv.xorBE_involutive", "TinkVerif.Siv.decryptRaw_encryptRaw",
+                     "TinkVerif.Siv.decrypt_encrypt", "TinkVerif.Siv.decrypt_iff", "TinkVerif.Siv.decrypt_short"],
+        "harness": [{"name": "c08", "timeout": 3000}],
+        "rule": "AES-SIV via daead.New(handle) (TINK/CRUNCHY/RAW) and daead/subtle: pt/ad lengths <16, =16, 17..31, block multiples ±1, "
+                "up to 4 KiB; ciphertext equality with the Lean RFC 5297 model; decrypt decisions on mutations incl. the two cleared IV "
+                "bits and modified ad; S2V (both branches) and XOREndAndCompute compared with the RFC-text specification through export "
+                "hooks; AES-KWP: both KEK sizes, payload lengths 16..8192 (thorough: every length), equality with the model, unwrap of "
+                "mutated wrappings; non-trivial = every op line, distinct by line hash",
+        "trusted_base": [KERNEL, TIE, PRIMS],
+        "assumptions": ["forgery rejection beyond the exact characterisation decrypt_iff rests on CMAC unforgeability (cryptographic)"],
+        "manifest": {
+            "text": "Theorems for every block function: KWP's unwrapping permutation inverts the wrapping permutation step by step; wrapping "
+                    "size formula; AES-SIV decrypt∘encrypt = id (raw and prefixed), exact acceptance characterisation, short inputs "
+                    "rejected. Tie: byte equality of Go ciphertexts/wrappings with the RFC 5297 / RFC 5649 Lean models over the reference AES, "
+                    "S2V and XOREndAndCompute vs their RFC-text specifications, decisions on mutation streams.",
+            "design_ref": "DESIGN.md §5.8",
+            "note": "Trusted: Lean kernel; reference AES; hand model tied by differential execution.",
+            "technique": "Lean 4 proof (KWP inverse, SIV round trip/characterisation) + Go/Lean byte-equality correspondence",
+        },
+    },
     "C11": {
         "lean": ["TinkVerif.Props.C11"],
-        "theorems": [
-            "TinkVerif.Manager.inv_run", "TinkVerif.Manager.handle_after_any_history",
-            "TinkVerif.Manager.handle_after_any_history_from", "TinkVerif.Manager.handle_isSome_iff",
-            "TinkVerif.Manager.handle_wf", "TinkVerif.Manager.wf_primary", "TinkVerif.Manager.inv_fromHandle",
-            "TinkVerif.Manager.err_unchanged", "TinkVerif.Manager.hasPrimary_step",
-            "TinkVerif.Manager.disable_primary_err", "TinkVerif.Manager.delete_primary_err",
-            "TinkVerif.Manager.setPrimary_nonenabled_err", "TinkVerif.Manager.unknown_id_err",
-            "TinkVerif.Manager.addKey_idReq", "TinkVerif.Manager.add_ok_last",
-        ],
+        "theorems": T("TinkVerif.Manager",
+                      "inv_run handle_after_any_history handle_after_any_history_from handle_isSome_iff handle_wf wf_primary "
+                      "inv_fromHandle err_unchanged hasPrimary_step disable_primary_err delete_primary_err setPrimary_nonenabled_err "
+                      "unknown_id_err addKey_idReq add_ok_last"),
         "harness": [{"name": "c11"}],
         "rule": "random manager histories (1..80 ops over Add/AddNewKeyFromParameters/AddKey/AddKeyWithOpts/SetPrimary/"
                 "Enable/Disable/Delete/Handle/NewManagerFromHandle, ids biased to live/deleted/colliding/boundary values, "
@@ -23,62 +105,39 @@ PROPS = {
                 "non-trivial if it is a state-changing or failing op (not a bare dump of ≤1 entries); distinct by op-line hash",
         "trusted_base": [KERNEL, TIE, "key generation/parsing is opaque to the model (only success/failure enters)"],
         "assumptions": ["model Manager.lean is tied to keyset/manager.go by differential execution, not by translation"],
-    },
-    "C07": {
-        "lean": ["TinkVerif.Props.C07"],
-        "theorems": ["TinkVerif.Stream." + t for t in (
-            "writer_chunking_independent writer_partition_irrelevant segments_cover_plaintext segmentNonce_injective "
-            "segmentNonce_limit sink_fault_surfaces flush_fails_after_fault failed_flush_keeps_segment read_honest "
-            "reader_chunking_independent stream_roundtrip read_sound manipulation_detected source_fault_never_eof "
-            "idealCipher_sound").split()],
-        "harness": [{"name": "c07a"}],
-        "rule": "",
-        "trusted_base": [KERNEL, TIE],
-        "assumptions": [],
-    },
-    "C04": {
-        "lean": ["TinkVerif.Props.C04"],
-        "theorems": ["TinkVerif.Cmac.compute_eq_spec", "TinkVerif.Cmac.cbcLoop_eq", "TinkVerif.Mac.verify_iff",
-                     "TinkVerif.Mac.compute_layout", "TinkVerif.Mac.legacy_suffix", "TinkVerif.Mac.verify_wrong_length",
-                     "TinkVerif.Mac.hmac_param_guard", "TinkVerif.Mac.cmac_param_guard",
-                     "TinkVerif.outputPrefix_inj", "TinkVerif.outputPrefix_tink_ne_crunchy"],
-        "harness": [{"name": "c04"}],
-        "rule": "",
-        "trusted_base": [KERNEL, TIE],
-        "assumptions": [],
+        "manifest": {
+            "text": "Lean 4 theorems over a model of keyset.Manager/newFromEntries: the invariant (distinct ids, ≤1 primary, primary ENABLED, "
+                    "ids unavailable, no Unknown status) is proved for every operation and, by induction, for operation histories of any length "
+                    "from the empty manager or any well-formed handle; Handle() is proved to fail exactly when no primary exists and otherwise "
+                    "to return a well-formed keyset; failing public operations leave the entry list unchanged; primary persistence; id requirement. "
+                    "The model is tied to the code by an op-history differential on the real Manager (every op's result, entries and unavailable ids).",
+            "design_ref": "DESIGN.md §5.11",
+            "note": "Trusted: Lean kernel; hand-written model tied by differential execution (generator coverage in evidence); key generation opaque.",
+            "technique": "Lean 4 invariant proof by induction over operation histories + Go/Lean op-history correspondence",
+        },
     },
     "C15": {
         "lean": ["TinkVerif.Props.C15"],
-        "theorems": ["TinkVerif.Hmac." + t for t in "expand_prefix expand_length expand_first_block hkdf_limit hkdf_prefix "
-                     "computeHKDF_spec computeHKDF_guard hmac_empty_key_eq_zero_key".split()] + ["TinkVerif.truncating_prf_prefix"],
+        "theorems": T("TinkVerif.Hmac", "expand_prefix expand_length expand_first_block hkdf_limit hkdf_prefix computeHKDF_spec "
+                      "computeHKDF_guard hmac_empty_key_eq_zero_key") + ["TinkVerif.truncating_prf_prefix"],
         "harness": [{"name": "c15"}],
-        "rule": "",
-        "trusted_base": [KERNEL, TIE],
-        "assumptions": [],
-    },
-    "C08": {
-        "lean": ["TinkVerif.Props.C08"],
-        "theorems": ["TinkVerif.Kwp.stepB_stepF", "TinkVerif.Kwp.Winv_W", "TinkVerif.Kwp.wrappingSize_formula",
-                     "TinkVerif.Kwp.wrappingSize_mult8", "TinkVerif.Siv.xorBE_involutive", "TinkVerif.Siv.decryptRaw_encryptRaw",
-                     "TinkVerif.Siv.decrypt_encrypt", "TinkVerif.Siv.decrypt_iff", "TinkVerif.Siv.decrypt_short"],
-        "harness": [{"name": "c08"}],
-        "rule": "",
-        "trusted_base": [KERNEL, TIE],
-        "assumptions": [],
+        "rule": "HMAC-PRF (5 hashes, any key size), HKDF-PRF (salts nil/empty/short/hashLen/long), AES-CMAC-PRF through prf/subtle and "
+                "prf.NewPRFSet over mixed multi-key keysets with DISABLED/DESTROYED keys; output lengths 0..max+1 (exhaustive for "
+                "HMAC/CMAC in every third case, boundary-directed for HKDF incl. k·hashLen±1, 255·hashLen, +1); subtle.ComputeHKDF with "
+                "tag sizes 0..max+1 and nil/empty/zero salts; byte equality with the Lean RFC 2104/5869/4493 models; prefix law, "
+                "determinism, id set and primary id checked on the implementation; non-trivial = every op line, distinct by line hash",
+        "trusted_base": [KERNEL, TIE, PRIMS],
+        "assumptions": ["the hash compression functions are reference code (KAT-validated)"],
+        "manifest": {
+            "text": "Theorems for every fixed-length MAC: HKDF-Expand prefix law, output length, first block = T(1), the 255·hashLen limit, "
+                    "ComputeHKDF returns RFC 5869 output whenever it returns (empty salt = zeros, proved equivalent HMAC key), guard table; "
+                    "truncating-PRF prefix law. Tie: byte equality of every PRF output and every HKDF helper output with the Lean models over "
+                    "the reference hash/AES for all output lengths around every boundary, plus PRF-set id checks.",
+            "design_ref": "DESIGN.md §5.15",
+            "note": "Trusted: Lean kernel; reference SHA/AES; hand model tied by differential execution.",
+            "technique": "Lean 4 proof (HKDF/PRF laws for any MAC) + Go/Lean byte-equality correspondence over all output lengths",
+        },
     },
 }
 
 NOT_BUILT = {}
-
-MANIFEST_TEXT = {
-    "C11": {
-        "text": "Lean 4 theorems over a model of keyset.Manager/newFromEntries: the invariant (distinct ids, ≤1 primary, primary ENABLED, "
-                "ids unavailable, no Unknown status) is proved for every operation and, by induction, for operation histories of any length "
-                "from the empty manager or any well-formed handle; Handle() is proved to fail exactly when no primary exists and otherwise "
-                "to return a well-formed keyset; failing public operations leave the entry list unchanged; primary persistence; id requirement. "
-                "The model is tied to the code by an op-history differential on the real Manager (every op's result, entries and unavailable ids).",
-        "design_ref": "DESIGN.md §5.11",
-        "note": "Trusted: Lean kernel; hand-written model tied by differential execution (generator coverage in evidence); key generation opaque.",
-        "technique": "Lean 4 invariant proof by induction over operation histories + Go/Lean op-history correspondence",
-    },
-}
